@@ -524,7 +524,14 @@ func fileSetVBuf(L *LState) int {
 	if n := fileIsWritable(L, file); n != 0 {
 		return n
 	}
-	switch filebufOptions[L.CheckOption(2, filebufOptions)] {
+	option := filebufOptions[L.CheckOption(2, filebufOptions)]
+	// output still held by the buffer that is about to be replaced must not be lost
+	if bw, ok := file.writer.(*bufio.Writer); ok {
+		if err = bw.Flush(); err != nil {
+			goto errreturn
+		}
+	}
+	switch option {
 	case "no":
 		switch file.Type() {
 		case lFileFile:
